@@ -138,7 +138,7 @@ static inline void perturb(const Delay& d) {
 }
 
 static std::vector<int> value_bytes(unodb::value_view v) {
-  // values written by this driver have 3..8 bytes; anything else is logged in
+  // values written by this driver have 0..8 bytes; anything longer is logged in
   // a form that cannot be mistaken for one of them
   std::vector<int> r;
   if (v.size() <= 12) {
@@ -269,11 +269,13 @@ static void generate(Run& r, std::uint64_t seed, long run_no, int fixed_threads,
       else
         op.k = kc < 35 ? hot : static_cast<int>(tr.below(static_cast<std::uint64_t>(r.nk)));
       if (op.kind == INS) {
-        // distinguishable per (thread, counter); 3..8 bytes
+        // distinguishable per (thread, counter); 3..8 bytes -- and, one in seven, a
+        // short value of 0..2 bytes (an empty value is a value: a hit on it pins too)
         ++counter;
-        const std::size_t len = 3 + tr.below(6);
+        const std::size_t len = tr.below(7) == 0 ? tr.below(3) : 3 + tr.below(6);
         op.v = {static_cast<std::uint8_t>(t), static_cast<std::uint8_t>(counter & 0xFF),
                 static_cast<std::uint8_t>(0xA0 + (run_no & 0xF))};
+        op.v.resize(std::min<std::size_t>(len, 3));
         while (op.v.size() < len) op.v.push_back(static_cast<std::uint8_t>(op.v.size() * 31 + counter + 16 * static_cast<unsigned>(t)));
       }
       op.fwd = tr.chance(70);
